@@ -377,8 +377,8 @@ def replay(cand):
 
 
 MANIFEST_ENTRY = {
-    "engine": "symx",
-    "technique": "bounded symbolic execution (symx/z3) of sfile.SFile/sfile.write/read_header and recfile.Recfile.write over a virtual file behind the reader/writer contract: each operation of the property's alphabet (write again on the handle, append by reopening once or twice, two writes through an r+ handle, overwrite, append to a missing file, append with fields differing in name/type/shape/count/order) is applied to a file state with symbolic cells; rows, SIZE line, retained user header, delimiter record and 'no mutating call before a rejection' are asserted; counterexamples replayed on real files with a scratch build",
+    "engine": "symx+castxx",
+    "technique": "bounded symbolic execution (symx/z3) of sfile.SFile/sfile.write/read_header and recfile.Recfile.write over a virtual file behind the reader/writer contract: each operation of the property's alphabet (write again on the handle, append by reopening once or twice, two writes through an r+ handle, overwrite, append to a missing file, append with fields differing in name/type/shape/count/order) is applied to a file state with symbolic cells; rows, SIZE line, retained user header, delimiter record and 'no mutating call before a rejection' are asserted; Records::Write and Records::update_row_count of records.cpp are interpreted from clang's AST (vf.castxx) over an abstract FILE from an arbitrary file position: rows go to the end of the file, only the fixed-width SIZE line is rewritten, the position returns to the end; counterexamples replayed on real files with a scratch build",
     "text": "From any file state (header, 1..3 rows) each operation yields exactly header + old rows + new chunk (or only the new chunk for create/overwrite), the SIZE line equals the total, the user header of creation is retained by appends, an append to a missing file creates it, an incompatible append raises before any mutating call; consecutive writes through one handle keep the cached count right.  One step from an arbitrary state covers histories of any length.",
-    "note": "prior rows 1..2/3, chunks 1..2 rows; records.cpp (fseek to end, fixed-width SIZE rewrite) is behind the contract and not interpreted",
+    "note": "prior rows 1..2/3, chunks 1..2 rows; the Python layer is decided against the writer contract, the binary writer of records.cpp against that contract separately (text writes not interpreted)",
 }
